@@ -1634,6 +1634,12 @@ func (bc *Blockchain) removeOldHeaderHashes(index uint32) time.Duration {
 		start   = time.Now()
 		till    = ((int32(index)+1)/headerBatchCount - 1) * headerBatchCount
 	)
+	// The last completely stored page is needed to restore header hashes on restart
+	// (see HeaderHashes.init), it can follow the target immediately if MaxTraceableBlocks
+	// is less than the page size.
+	bc.HeaderHashes.lock.RLock()
+	till = min(till, int32(bc.HeaderHashes.storedHeaderCount)-2*headerBatchCount)
+	bc.HeaderHashes.lock.RUnlock()
 	if till > 0 {
 		err = bc.store.SeekGC(storage.SeekRange{
 			Prefix: []byte{byte(storage.IXHeaderHashList)},
